@@ -129,6 +129,10 @@ class SimpleOperationExecutor:
         norm_cased_filename = os.path.normcase(filename)
         is_file_no_read = self._is_file_no_read(
             norm_cased_filename, created_files)
+        if is_file_no_read is None:
+            # Consult the virtual state, e.g. a directory that was virtually
+            # removed may still be present in the real file system
+            is_file_no_read = self.is_file(filename, created_files)
         if is_file_no_read is False:
             if self.is_dir(filename, created_files):
                 raise IsADirectoryError(
